@@ -51,7 +51,7 @@ type Step struct {
 	Push  string       `json:"push,omitempty"`
 	D     int          `json:"d,omitempty"`     // advance: ms; push: deadline ms (0 = none)
 	Burst bool         `json:"burst,omitempty"` // do not settle after this step: it races with the next one
-	After int          `json:"after,omitempty"` // release / cancel: takes effect this many fake nanoseconds later (only useful inside a burst)
+	After int          `json:"after,omitempty"` // release / cancel / pushcancel: takes effect this many fake nanoseconds later (only useful inside a burst)
 }
 
 func (s Step) String() string {
@@ -77,6 +77,9 @@ func (s Step) String() string {
 	case "cbreply":
 		return fmt.Sprintf("%scbreply %s #%d %s n=%d", b, s.Push, s.K, s.Out, s.D)
 	case "pushcancel":
+		if s.After > 0 {
+			return fmt.Sprintf("%spushcancel #%d after %dns", b, s.K, s.After)
+		}
 		return fmt.Sprintf("%spushcancel #%d", b, s.K)
 	case "advance":
 		return fmt.Sprintf("%sadvance %dms", b, s.D)
@@ -617,6 +620,18 @@ func (w *world) exec(i int, st Step) {
 		w.mu.Lock()
 		c := w.pushCtx[st.K]
 		w.mu.Unlock()
+		if st.After > 0 {
+			// later on the fake clock: it can fall between the arrival of a reply
+			// and the moment the waiting Callback acts on it
+			go func() {
+				w.sched.Sleep(time.Duration(st.After))
+				w.log(Event{Kind: "pushcancel", K: st.K})
+				if c != nil {
+					c()
+				}
+			}()
+			break
+		}
 		w.log(Event{Kind: "pushcancel", K: st.K})
 		if c != nil {
 			c()
@@ -753,6 +768,11 @@ func Run(t *testing.T, sc Scenario) (h *History) {
 		w = &world{t: t, t0: time.Now(), cfg: sc.Cfg, sched: sched, gates: map[int]chan string{}, parked: map[int]bool{},
 			pushCtx: map[int]context.CancelFunc{}, drain: make(chan struct{}), statusSet: map[int]bool{}}
 		sched.Trace = func(site, key, phase string) {
+			if site == "rsp.wait.woke" && phase == "arrive" {
+				// a waiting Callback has been handed its outcome (key = callback id)
+				w.log(Event{Kind: "woke", ID: key})
+				return
+			}
 			// where a dispatched request stands relative to the slot semaphore
 			if site != "srv.invoke.acquire" {
 				return
